@@ -474,11 +474,19 @@ def requiresFinalizerSpawning {V} [PyVal V] (hs : List (Handler V)) (c : Cause V
 def hasHandlers {V} (hs : List (Handler V)) : Bool := hs.any matchesResource
 
 -- ---------------------------------------------------------------------------------------------
--- processing.process_resource_causes, as far as "is anything done to this object" goes
--- (consistency pre-proven: `consistency_time is None`). The cycle's patch starts from
--- `memory.remaining_patch`: the transformation functions of an earlier cycle whose JSON-patch was
--- rejected (HTTP 422). Since /repo 1c8f3dd these are the *handlers'* functions only (the framework's
--- own finalizer edits are dropped from what is carried); `Obj.carried` says whether there are any.
+-- processing.process_resource_event / process_resource_causes, as far as "is anything done to this
+-- object" goes. The cycle's patch starts from `memory.remaining_patch`: the transformation functions
+-- of an earlier cycle whose JSON-patch was rejected (HTTP 422). Since /repo 1c8f3dd these are the
+-- *handlers'* functions only (the framework's own finalizer edits are dropped from what is carried).
+-- `Obj.carried`: there are any; `Obj.carriedOps`: they still yield a JSON-patch operation on the body at
+-- hand (else no request is sent for them). /repo 608a57d forgot the fulfilled ones before the cycle;
+-- its rework 02af7ce keeps them in the patch and makes the early exit come back at once instead
+-- (`Repairs`). Since /repo 423b86f the "blind" branch (no changing handler prematches) purges the
+-- progress records of the resource's handlers and of their sub-handlers that are PRESENT on the object
+-- (`Obj.records`). Consistency: pre-proven (`consistency_time is None`) or, with `Obj.timed`, a deadline
+-- that is over already (both give `consistency_is_achieved = True` before the patch is looked at); since
+-- /repo 30557a0 the early exit to PATCHing returns the remaining waiting time as a delay when there is
+-- a deadline, since 02af7ce a zero delay when the cycle started with a non-empty patch.
 
 structure Registry (V : Type) where
   watching : List (Handler V)
@@ -495,17 +503,25 @@ structure Obj where
   deletedEvent : Bool     -- raw_event['type'] == 'DELETED'
   ongoing : Bool          -- finalizers.is_deletion_ongoing(body)
   blocked : Bool          -- finalizers.is_deletion_blocked(body, finalizer): own finalizer present
-  carried : Bool          -- `bool(memory.remaining_patch)`: `patch_initially_empty = not patch` is false
+  carried : Bool          -- `memory.remaining_patch is not None` (and not empty) when the event arrives
+  carriedOps : Bool       -- `bool(patch.as_json_patch(body))`: the carried functions yield at least one
+                          -- JSON-patch operation on the body of THIS event (else they are fulfilled already)
   lingering : Bool        -- in-memory residue of an earlier cycle: a daemon/timer of this object that is not
                           -- matched any more (or whose object is being deleted) is still exiting, so
                           -- `match_daemons` / `stop_daemons` return a delay (daemon life cycles: C09)
   handlerDelays : Bool    -- `process_changing_cause` (if it runs) returns delays: a handler asked to be retried
   resumed : List String   -- `memory.resumed_handlers` (/repo 6c4463d): resuming handlers already finished here
+  records : List (String × List String)
+                          -- the progress records PRESENT on the object (annotations and/or status.kopf.progress):
+                          -- handler id ↦ its `subrefs`, whoever wrote them (the model decides which are owned)
+  timed : Bool            -- `consistency_time is not None` with the deadline over (`<= loop.time()`), operator
+                          -- not paused; `false`: `consistency_time is None`
 
 inductive Effect where
-  | carried                              -- the cycle's patch starts with an earlier cycle's rejected fns
+  | carried                              -- an earlier cycle's rejected transformation is RE-SENT (it still changes the object)
   | invokeWatching (ids : List String)   -- on.event handlers run (their results go to patch.status)
   | spawn (ids : List String)            -- daemons/timers matched for spawning
+  | purge (ids : List String)            -- the blind branch: progress records of these ids are patched AWAY
   | addFinalizer                         -- patch.fns += block_deletion
   | removeFinalizer                      -- patch.fns += allow_deletion
   | handle (ids : List String)           -- process_changing_cause: handlers, progress & diff-base annotations
@@ -517,13 +533,33 @@ inductive Effect where
     write only when such a handler matched: `invokeWatching`/`spawn` name the handlers.) -/
 def Effect.isFrameworkWrite : Effect → Bool
   | .carried => true
+  | .purge _ => true
   | .addFinalizer => true
   | .removeFinalizer => true
   | .handle _ => true
   | .touch => true
   | _ => false
 
+/-- a write that only takes the framework's own marks OFF the object: its finalizer, its leftover
+    progress records (the clause "no annotations, no finalizer" is made true, not broken, by these) -/
+def Effect.isRemoval : Effect → Bool
+  | .purge _ => true
+  | .removeFinalizer => true
+  | _ => false
+
 def ids {V} (hs : List (Handler V)) : List String := hs.map (·.id)
+
+/-- the ids of `registry._changing.get_resource_handlers(resource)` (`_deduplicated` keeps the id set) -/
+def ownedIds {V} (hs : List (Handler V)) : List String := ids (hs.filter matchesResource)
+
+/-- `State.from_storage(handlers=owned).purge(handlers=owned)`: `storage.purge` patches a key away only
+    if the body has it; the keys tried are the owned ids and the `subrefs` of the owned records found -/
+def purgeIds {V} (hs : List (Handler V)) (records : List (String × List String)) : List String :=
+  let owned := ownedIds hs
+  let subs := (records.filter (fun r => owned.contains r.1)).flatMap (·.2)
+  (records.map (·.1)).filter (fun i => owned.contains i || subs.contains i)
+
+def purgeEffect (is : List String) : List Effect := if is.isEmpty then [] else [Effect.purge is]
 
 /-- atoms of the finalizer decision block of `process_resource_causes` -/
 structure FinAtoms where
@@ -560,6 +596,41 @@ structure ExitAtoms where
   carried : Bool         -- not patch_initially_empty
 def earlyExitCore (a : ExitAtoms) : Bool := a.required && !(a.achievedBefore && !a.carried)
 
+/-- `process_resource_event` (/repo 608a57d):
+    `if memory.remaining_patch is not None and not patch.as_json_patch(body): <forget it>` -/
+structure ForgetAtoms where
+  carriedNotNone : Bool  -- memory.remaining_patch is not None
+  hasOps : Bool          -- bool(patch.as_json_patch(body))
+def forgetCore (a : ForgetAtoms) : Bool := a.carriedNotNone && !a.hasOps
+
+/-- which of today's repairs of `processing.py` are in the code (named variants: /repo as it is --
+    `rework` --, 423b86f as first committed -- `at608` --, and the code BEFORE a repair for the regression
+    theorems) -/
+structure Repairs where
+  forgetFulfilled : Bool   -- /repo 608a57d: carried transformations that are fulfilled already are forgotten
+                           -- at the head of process_resource_event (removed again by the rework)
+  blindPurge : Bool        -- /repo 423b86f: the blind branch purges the leftover progress records
+  exitDeadline : Bool      -- /repo 30557a0: the early exit returns the remaining waiting time as a delay
+  exitCarried : Bool       -- the rework of 608a57d: the early exit returns a zero delay when the cycle started
+                           -- with a non-empty (carried) patch: a patch that sends nothing is followed by a touch
+  deriving DecidableEq, Repr
+
+/-- /repo 423b86f as first committed: with 608a57d's head block, before its rework -/
+def Repairs.at608 : Repairs := ⟨true, true, true, false⟩
+/-- /repo 02af7ce, the code as it is: 608a57d's head block removed again, the early exit comes back at once -/
+def Repairs.rework : Repairs := ⟨false, true, true, true⟩
+
+/-- the early exit of `process_resource_causes`: is a delay returned besides the spawning delays?
+    `if paused: pass / elif consistency_time is not None: [remaining] / elif not patch_initially_empty: [0.]`
+    (before the rework: `if consistency_time is not None and not paused: [remaining]`) -/
+structure WaitAtoms where
+  timeNotNone : Bool     -- consistency_time is not None
+  pausedNotNone : Bool   -- operator_paused is not None
+  pausedOn : Bool        -- operator_paused.is_on()
+  carried : Bool         -- not patch_initially_empty
+def waitingCore (v : Repairs) (a : WaitAtoms) : Bool :=
+  !(a.pausedNotNone && a.pausedOn) && ((v.exitDeadline && a.timeNotNone) || (v.exitCarried && a.carried))
+
 /-- the filter of `process_changing_cause` on `cause_handlers` (/repo 6c4463d):
     `not (handler.initial and handler.id in memory.resumed_handlers)` -/
 structure ResumedAtoms where
@@ -591,8 +662,40 @@ def applyTouchCore (a : ApplyAtoms) : Bool :=
     (if a.changed && !a.delayTruthy then false else if a.interrupted then false else true)
   else false
 
-def cycle {V} [PyVal V] (r : Registry V) (cs : Causes V) (o : Obj) (stopped : List String) :
-    List Effect :=
+/-- is the cycle's patch non-empty from the start (`patch_initially_empty = not patch` is false)? -/
+def patchNonEmpty (v : Repairs) (o : Obj) : Bool :=
+  o.carried && !(v.forgetFulfilled && forgetCore { carriedNotNone := o.carried, hasOps := o.carriedOps })
+
+/-- the carried patch as a WRITE: something was carried over and it still yields an operation on the
+    object at hand (else no request is sent for it: `as_json_patch` is empty) -/
+def Obj.carriedEff (o : Obj) : Bool := o.carried && o.carriedOps
+
+/-- the end of `process_resource_causes` + `application.apply`: the delays, the release, the touch.
+    `patched₀`: a request that changes the object is due before the release is decided (an effective
+    carried transformation, the purge, a finalizer edit); `nonEmpty`: `not patch_initially_empty` -/
+def finishCycle (v : Repairs) (o : Obj) (hasS patched₀ nonEmpty early handled : Bool) : List Effect × Bool :=
+  -- `delays`: from `match_daemons`/`stop_daemons` (only if a spawning cause exists), from the handling,
+  -- and from the early exit (the remaining waiting time / zero for a carried patch)
+  let waiting := early &&
+    waitingCore v { timeNotNone := o.timed, pausedNotNone := false, pausedOn := false, carried := nonEmpty }
+  let delays := (hasS && o.lingering) || (handled && o.handlerDelays) || waiting
+  -- "Release the object if everything is done, and it is marked for deletion."
+  let ra : ReleaseAtoms :=
+    { deleted := o.deletedEvent, ongoing := o.ongoing, blocked := o.blocked, delays := delays }
+  let releasing := !early && releaseCore ra
+  let release := if releasing then [Effect.removeFinalizer] else []
+  -- `application.apply` (not for DELETED events): with delays and no request that changed the object,
+  -- sleep and touch. What `process_changing_cause` leaves in the patch is C02's subject, so the touch is
+  -- modelled for cycles without handling only.
+  let patched := patched₀ || releasing
+  let touch := if !o.deletedEvent && !handled && touchCore { delay := delays, patched := patched }
+               then [Effect.touch] else []
+  (release ++ touch, delays)
+
+/-- one cycle: the effects on the object, and whether `delays` (what `apply` gets) is non-empty -/
+def cycleFull {V} [PyVal V] (v : Repairs) (r : Registry V) (cs : Causes V) (o : Obj) (stopped : List String) :
+    List Effect × Bool :=
+  let nonEmpty := patchNonEmpty v o
   let hasW := hasHandlers r.watching
   let hasS := hasHandlers r.spawning
   let hasC := hasHandlers r.changing
@@ -600,8 +703,11 @@ def cycle {V} [PyVal V] (r : Registry V) (cs : Causes V) (o : Obj) (stopped : Li
   let watching := if hasW && !wIds.isEmpty then [Effect.invokeWatching wIds] else []
   let sIds := ids (getHandlersPlain r.spawning cs.spawning stopped)
   let spawning := if hasS && !o.ongoing && !sIds.isEmpty then [Effect.spawn sIds] else []
-  -- `if changing_cause is not None and not registry._changing.prematch(...)`: be blind to it
-  let changing₁ := hasC && !blindCore { hasChanging := hasC, prematch := prematchAny r.changing cs.changing }
+  -- `if changing_cause is not None and not registry._changing.prematch(...)`: be blind to it,
+  -- but patch away the leftover progress records of the resource's handlers
+  let blind := blindCore { hasChanging := hasC, prematch := prematchAny r.changing cs.changing }
+  let purged := if v.blindPurge && blind then purgeIds r.changing o.records else []
+  let changing₁ := hasC && !blind
   let fa : FinAtoms :=
     { hasSpawning := hasS, spawnReq := requiresFinalizerSpawning r.spawning cs.spawning stopped,
       changingLive := changing₁, changingReq := requiresFinalizerChanging r.changing cs.changing [],
@@ -611,25 +717,29 @@ def cycle {V} [PyVal V] (r : Registry V) (cs : Causes V) (o : Obj) (stopped : Li
   let changing₂ := changing₁ && !adding && !removing
   let fin₁ := (if adding then [Effect.addFinalizer] else []) ++
               (if removing then [Effect.removeFinalizer] else [])
-  -- a carried patch makes the cycle "inconsistent": exit to PATCHing before handling and release
-  let early := earlyExitCore { required := changing₂, achievedBefore := true, carried := o.carried }
+  -- a non-empty patch at the start makes the cycle "inconsistent": exit to PATCHing before handling and release
+  let early := earlyExitCore { required := changing₂, achievedBefore := true, carried := nonEmpty }
   let handled := changing₂ && !early
   let handling := if handled then
       [Effect.handle (if C05.handlerReasons.contains cs.changing.kind.reason
                       then ids (causeHandlers r.changing cs.changing o.resumed) else [])]
     else []
-  -- `delays`: from `match_daemons`/`stop_daemons` (only if a spawning cause exists) and from the handling
-  let delays := (hasS && o.lingering) || (handled && o.handlerDelays)
-  -- "Release the object if everything is done, and it is marked for deletion."
-  let ra : ReleaseAtoms :=
-    { deleted := o.deletedEvent, ongoing := o.ongoing, blocked := o.blocked, delays := delays }
-  let releasing := !early && releaseCore ra
-  let release := if releasing then [Effect.removeFinalizer] else []
-  -- `application.apply` (not for DELETED events). What `process_changing_cause` leaves in the patch is
-  -- C02's subject, so the touch is modelled for cycles without handling only.
-  let patched := o.carried || adding || removing || releasing
-  let touch := if !o.deletedEvent && !handled && touchCore { delay := delays, patched := patched }
-               then [Effect.touch] else []
-  (if o.carried then [Effect.carried] else []) ++ watching ++ spawning ++ fin₁ ++ handling ++ release ++ touch
+  let fin := finishCycle v o hasS (o.carriedEff || !purged.isEmpty || adding || removing) nonEmpty early handled
+  ((if o.carriedEff then [Effect.carried] else []) ++ watching ++ spawning ++ purgeEffect purged ++ fin₁ ++ handling
+    ++ fin.1, fin.2)
+
+/-- a variant of the code -/
+def cycleAt {V} [PyVal V] (v : Repairs) (r : Registry V) (cs : Causes V) (o : Obj) (stopped : List String) :
+    List Effect :=
+  (cycleFull v r cs o stopped).1
+
+def cycleDelaysAt {V} [PyVal V] (v : Repairs) (r : Registry V) (cs : Causes V) (o : Obj) (stopped : List String) :
+    Bool :=
+  (cycleFull v r cs o stopped).2
+
+/-- the code as it is (/repo 02af7ce); every theorem that does not depend on the difference is proved
+    for all variants with the blind purge -/
+def cycle {V} [PyVal V] (r : Registry V) (cs : Causes V) (o : Obj) (stopped : List String) : List Effect :=
+  cycleAt Repairs.rework r cs o stopped
 
 end Kopf.C15
